@@ -825,9 +825,80 @@ func bitsLen(u uint64) int {
 
 // ---------------------------------------------------------------- C14 / C15: race detector runs (child process)
 
+// gateTB: a TB whose Context() (consulted by T.Context when it creates the context of a test
+// case) holds a caller until a second one is inside as well, or 25ms have passed: if T.Context
+// lets two goroutines create a context at the same time, they will.
+type gateTB struct {
+	*recTB
+	mu     sync.Mutex
+	inside int
+	closed bool
+	both   chan struct{}
+}
+
+func (g *gateTB) Context() context.Context {
+	g.mu.Lock()
+	g.inside++
+	if g.inside >= 2 && !g.closed {
+		g.closed = true
+		close(g.both)
+	}
+	ch := g.both
+	g.mu.Unlock()
+	select {
+	case <-ch:
+	case <-time.After(25 * time.Millisecond):
+	}
+	g.mu.Lock()
+	g.inside--
+	if g.inside == 0 {
+		g.both = make(chan struct{})
+		g.closed = false
+	}
+	g.mu.Unlock()
+	return context.Background()
+}
+
 func raceScenario(which string) {
 	switch which {
 	case "C14":
+		// all goroutines observe one and the same context, also when their first calls overlap
+		{
+			gtb := &gateTB{recTB: newRecTB("gate"), both: make(chan struct{})}
+			fl := baseFlags()
+			fl.Checks = 5
+			fl.Seed = 11
+			withFlags(fl, func() {
+				runTB(func() {
+					rapid.VerifCheckTB(gtb, farDeadline(), func(t *rapid.T) {
+						var wg sync.WaitGroup
+						ctxs := make([]context.Context, 3)
+						for i := range ctxs {
+							wg.Add(1)
+							go func(i int) {
+								defer wg.Done()
+								ctxs[i] = t.Context()
+							}(i)
+						}
+						wg.Wait()
+						for i := range ctxs {
+							if ctxs[i] != ctxs[0] {
+								fmt.Println("LOST: goroutines of one test case observed different contexts")
+								os.Exit(67)
+							}
+						}
+						t.Cleanup(func() {
+							for i := range ctxs {
+								if ctxs[i].Err() == nil {
+									fmt.Println("LOST: a context handed out during the test case was not cancelled before the cleanups")
+									os.Exit(67)
+								}
+							}
+						})
+					})
+				})
+			})
+		}
 		prop := func(t *rapid.T) {
 			n := rapid.IntRange(2, 8).Draw(t, "n")
 			var wg sync.WaitGroup
